@@ -98,6 +98,19 @@ TransformLaw(r, mag, refl, rot) ==
     BagEq(Offsets(Transform(r, mag, refl, rot)),
           [i \in DOMAIN Offsets(r) |-> ApplyLin(m, Offsets(r)[i])])
 
+\* Polygon::scale with two factors (scale_repetition in src/polygon.cpp), transcribed: every kind
+\* keeps its kind because a diagonal map keeps the axes
+ScaleRep(r, sx, sy) ==
+    CASE r.type = "none" -> r
+      [] r.type = "rect" -> Rect(r.cols, r.rows, <<sx * r.sp[1], sy * r.sp[2]>>)
+      [] r.type = "regular" -> Regular(r.cols, r.rows, <<sx * r.v1[1], sy * r.v1[2]>>, <<sx * r.v2[1], sy * r.v2[2]>>)
+      [] r.type = "explicit" -> Explicit([i \in DOMAIN r.offs |-> <<sx * r.offs[i][1], sy * r.offs[i][2]>>])
+      [] r.type = "explicitx" -> ExplicitX([i \in DOMAIN r.coords |-> sx * r.coords[i]])
+      [] r.type = "explicity" -> ExplicitY([i \in DOMAIN r.coords |-> sy * r.coords[i]])
+ScaleLaw(r, sx, sy) ==
+    BagEq(Offsets(ScaleRep(r, sx, sy)),
+          [i \in DOMAIN Offsets(r) |-> <<sx * Offsets(r)[i][1], sy * Offsets(r)[i][2]>>])
+
 ZeroFirst(r) == Count(r) > 0 => Offsets(r)[1] = <<0, 0>>
 ExtremaLaw(r) == ExtremaOK(r, Extrema(r))
 CountLaw(r) ==
